@@ -64,6 +64,7 @@ type RunConfig struct {
 	PSFirst     int            `json:"ps_first_pct,omitempty"` // when both netlink clients wait: chance (percent) that the periodic one is served first (0 = 50)
 	CoLoc       bool           `json:"coloc,omitempty"`     // SMF 1 sends from SMF 0's IP address, another port
 	Startup     *StartupPlan   `json:"startup,omitempty"` // C20: the whole input of a start-up simulation
+	DNSFlaky    int            `json:"dns_flaky_pct,omitempty"` // percent of look-ups of known names that fail (C18)
 	MidFwd      bool           `json:"mid_fwd,omitempty"` // notifications are handed to the server while the event loop is inside a turn
 	EarlyStop   bool           `json:"early_stop,omitempty"` // C17: the stop request arrives while the PFCP server is still starting
 	LogYield    int            `json:"log_yield_pct,omitempty"` // percent of go-upf's log statements that park their goroutine for a few ns (needs a debug/trace log level)
@@ -635,6 +636,9 @@ func (s *Sim) installSeams() {
 	}
 	logger.Log.SetLevel(lvl)
 	logger.Log.SetOutput(io.Discard)
+	if os.Getenv("VERIF_UPFLOG") != "" {
+		logger.Log.SetOutput(os.Stderr) // triage aid: go-upf's own log
+	}
 	logger.Log.ReplaceHooks(logrus.LevelHooks{})
 	logger.Log.AddHook(fatalHook{s})
 	if s.cfg.LogYield > 0 && !s.cfg.FreeRun {
@@ -652,6 +656,11 @@ func (s *Sim) installSeams() {
 	simhook.SetChoose(s.choose)
 	simhook.SetResolve(func(host string) (net.IP, error) {
 		s.probe("resolver.lookup", 1)
+		if s.cfg.DNSFlaky > 0 && int(s.hash("dns", hashStr(host), uint64(s.since()))%100) < s.cfg.DNSFlaky {
+			// the resolver has a bad moment (fault kind "dns")
+			s.fired("dns.fail", 1)
+			return nil, &net.DNSError{Err: "server misbehaving", Name: host, IsTemporary: true}
+		}
 		if ip, ok := s.names[host]; ok {
 			return ip, nil
 		}
